@@ -3,11 +3,12 @@ from harness.props.session import *
 from harness.props import session as _s
 from harness.gen.sessions import gen_case, SidCounter
 
-LEAN_MODULES = ["C20", "C20b", "C20c", "C20d"]
+LEAN_MODULES = ["C20", "C20b", "C20c", "C20d", "C20e"]
 THEOREM_NOTE = ("Props/C20b.lean (the GLib machine, Model/GMachine.lean = GLibEventLoop over GLib main contexts + the same scheduler / input pipeline): after force_quit no handler is "
                 "called any more, enqueues are dropped, loops give up; every handler call is of a handler registered for the exact class with its data, from the list snapshotted at "
                 "enqueue; a batch is exactly the attach-order sub-sequence of the ready sources of the most urgent priority present. "
                 "Props/C20c.lean: the clauses of C02 / C03 / C09 / C10 on the GLib machine, each proved or refuted by a kernel-checked run replayed on the real code (G2: a failing handler skips the rest of its signal's handlers; G3: the batch continues after an exit request; G4: a waiting call dispatches whole batches, the mark comes after the handlers; close_loop does not drain). "
+                "Props/C20e.lean (partial): for 31 of the scheduler / screen / input instructions the two machines make the same step on equal views (same new app state, log, output, pushed instructions up to the translation). "
                 "Props/C20d.lean: for flat programs both machines refine the abstract runs (the MainLoop machine's macro step is mstep, the GLib machine's dispatch is gstep) and so produce the same handler invocations and the same final log on calm runs. "
                 "Props/C20.lean: on calm runs the two loop disciplines (MainLoop: stable priority queue, one signal at a time; GLib: batches of the most urgent priority in attach "
                 "order) dispatch the same signals in the same order; outside Calm the divergences are concrete, classified known findings G1-G4")
@@ -78,6 +79,14 @@ def generate(rnd, tier):
     from harness.props.C02 import gen_late
     cases += [with_cc(gen_late(rnd, sid)) for _ in range(n // 10)]
     cases += [with_cc(gen_late_same(rnd, sid)) for _ in range(n // 20)] + [with_cc(gen_wait_raise(rnd, sid)) for _ in range(n // 10)]
+    # waits nested in handlers, non-waiting calls inside waiting ones, force-quitting handlers with successors: the families of C10 / C09 (both real loops and both machines)
+    from harness.props.C10 import gen_c10, gen_c10_modal
+    from harness.props.C09 import gen_fq_handlers
+    # (not gen_c10_modal: there the awaited signal is dispatched in a nested loop while the waiting call's own level has pending signals - GLib finishes that level's batch
+    #  first, a shape of G4 that the Calm flags, which look at the level of the dispatch, do not mark)
+    cases += [with_cc(gen_c10(rnd, sid)) for _ in range(n // 4)]
+    for _ in range(n // 8):
+        c = gen_fq_handlers(rnd, sid); c.pop("glib_fq", None); cases.append(with_cc(c))
     for _ in range(n):
         c = gen_case(rnd, rnd.choice(["tame", "tame", "app", "loop"]), sid)
         c["deliver_at"] = []          # delivery points are indices into a log that may differ between the loops: deliver only when blocked
